@@ -241,10 +241,33 @@ def execute(case: dict) -> dict:
                     for _ in range(case.get("read_delay", 0)):
                         await anyio.sleep(0)  # let several records pile up in the transport
 
+                creads = case.get("creads") or {}
                 while limit is None or len(got) < limit:
                     n = rsizes[k % len(rsizes)]
                     k += 1
-                    chunk = await s.receive(n)
+                    if limit is not None and str(k) in creads:
+                        # this receive() runs in a scope that is cancelled already (delay
+                        # None) or gets cancelled `delay` loop cycles later - maybe in the
+                        # very cycle in which the ciphertext arrives.  Whether it raises or
+                        # returns data, nothing may be lost: the stream goes on right after
+                        # the last byte that a receive() handed out
+                        delay = creads[str(k)]
+                        with anyio.CancelScope() as cs:
+                            if delay is None:
+                                cs.cancel()
+                            else:
+                                _cancel_after(cs, delay)
+
+                            chunk = await s.receive(n)
+
+                        if cs.cancelled_caught:
+                            window("receive_cancelled:" + ("pre" if delay is None else "timed"))
+                            continue
+
+                        window("receive_completed_in_cancelled_or_timed_scope")
+                    else:
+                        chunk = await s.receive(n)
+
                     if not 1 <= len(chunk) <= n:
                         viol.append(("receive-size-out-of-bounds", {"max_bytes": n, "got": len(chunk)}))
                         if not chunk:
@@ -408,6 +431,20 @@ def execute(case: dict) -> dict:
     return out
 
 
+def _cancel_after(scope, cycles: int) -> None:  # noqa: ANN001
+    import asyncio
+
+    loop = asyncio.get_running_loop()
+
+    def tick(left: int) -> None:
+        if left <= 0:
+            scope.cancel()
+        else:
+            loop.call_soon(tick, left - 1)
+
+    loop.call_soon(tick, cycles)
+
+
 def _summ(res: dict) -> dict:
     return {k: {kk: (len(vv) if isinstance(vv, (bytes, bytearray)) else vv) for kk, vv in v.items()}
             for k, v in res.items()}  # fmt: skip
@@ -474,6 +511,26 @@ def all_cases(tier: str, seed: int):  # noqa: ANN201
                            "sizes": [[s_] * k, [s_] * k], "rsizes": [[m], [m]], "closer": "client",
                            "cut": None, "seed": 1, "read_delay": 40, "send_lat": [0]}  # fmt: skip
 
+    # receive() calls that are cancelled: in a scope cancelled beforehand while plaintext is
+    # buffered (rest of a record read with a small max_bytes; further records coalesced into
+    # the same chunk), and by a cancel that lands at every cycle around the arrival of the
+    # ciphertext.  The payload oracle decides: not one byte may be lost or repeated
+    for ver in ("1.2", "1.3"):
+        for pol in ("pass", "coalesce"):
+            for rs in ([4], [3, 50]):
+                for ks in ([2], [2, 3], [1, 3, 4]):
+                    yield {"cfg": "stock", "ver": ver, "compat": True, "policy": [pol, pol],
+                           "sizes": [[10, 25, 10], [12, 12]], "rsizes": [rs, rs], "closer": "client",
+                           "cut": None, "seed": 1, "read_delay": 30 if pol == "coalesce" else 0,
+                           "send_lat": [0], "creads": {str(k): None for k in ks}}  # fmt: skip
+
+        for delay in range(0, 14):
+            for lat in (0, 1, 2):
+                yield {"cfg": "stock", "ver": ver, "compat": True, "policy": ["pass", "pass"],
+                       "sizes": [[10, 25, 10], [12, 12]], "rsizes": [[64], [64]], "closer": "client",
+                       "cut": None, "seed": 1, "send_lat": [lat],
+                       "creads": {"1": delay, "2": delay // 2}}  # fmt: skip
+
     sizes_pool = [0, 1, 2, 100, 1000, 16383, 16384, 16385, 20000, 40000, 70000, 140000]
     for _ in range(900 if tier == "thorough" else 60):
         ver = rng.choice(["1.2", "1.3"])
@@ -491,6 +548,10 @@ def all_cases(tier: str, seed: int):  # noqa: ANN201
 
         if rng.random() < 0.3:
             case["read_delay"] = rng.choice([5, 20, 60])
+
+        if rng.random() < 0.3:
+            case["creads"] = {str(rng.randint(1, 6)): rng.choice([None, None, 0, 1, 2, 3, 5, 8])
+                              for _ in range(rng.randint(1, 3))}  # fmt: skip
 
         if rng.random() < 0.4:
             case["cut"] = [rng.randrange(2), rng.randrange(0, 3000 + sum(sizes[0]) + sum(sizes[1]))]
@@ -533,6 +594,7 @@ def replay(case: dict, col) -> None:  # noqa: ANN001
 
 def finish(col, tier: str) -> None:  # noqa: ANN001
     for k in ("window:cut:handshake", "window:cut:data", "window:truncation_detected",
-              "window:ragged_eof_accepted", "ver:1.2", "ver:1.3"):  # fmt: skip
+              "window:ragged_eof_accepted", "ver:1.2", "ver:1.3", "window:receive_cancelled:timed",
+              "window:receive_completed_in_cancelled_or_timed_scope"):  # fmt: skip
         if not col.counters.get(k):
             col.inconclusive_because(f"deciding window never reached: {k}")
